@@ -12,6 +12,11 @@
 EXTENDS Integers, Sequences, FiniteSets, SequencesExt, TLC
 
 PositionGap == 1
+\* The values of a field keep the order in which they were added to the document, however the (field, value)
+\* pairs of the different fields are interleaved: the indexer groups the pairs by field, which must be a STABLE
+\* grouping.  Rust's sort_unstable is an insertion sort (stable in effect) up to 20 elements: documents with
+\* more pairs than that are the boundary (Gen_InvertedIndex emits them around the limit and well above).
+ManyValuesLimit == 20
 TERMINATED == 2147483647
 
 SeqSet(s) == {s[i] : i \in 1..Len(s)}
